@@ -108,7 +108,7 @@ func (f fails) add(key, format string, a ...interface{}) {
 var oracleKeys = map[string][]string{
 	"docx": {"body-order", "table-after-multipara-table", "inline-order", "hyperlink-text-lost", "ins-text-lost", "sdt-text-lost",
 		"text-lost", "list-item-lost", "heading-level", "style-chain-heading-level", "direct-outline-level", "list-nesting", "grid-cell", "merged-cell", "header-leak",
-		"header-requested", "parsed-grid-shape", "parsed-grid-span", "parsed-grid-continuation"},
+		"header-requested", "parsed-grid-shape", "parsed-grid-span", "parsed-grid-continuation", "block-container-content-lost"},
 	"odt": {"body-order", "span-text-order", "inline-element-lost", "link-text-lost", "nested-span-text-lost", "text-lost", "list-item-lost",
 		"heading-level", "style-chain-heading-level", "direct-outline-level", "outline-level-vs-inherited-style-level", "outline-level-vs-own-style-level",
 		"heading-without-outline-level", "paragraph-in-heading-style", "list-nesting", "grid-cell", "merged-cell", "header-leak",
@@ -214,6 +214,26 @@ func (d *ldoc) chainNote(p *lpara) string {
 	return b.String()
 }
 
+// blockLostKey: the key under which a token of the block that shows up nowhere fails. A
+// block that sits in a block-level container of the body (w:sdt / w:customXml) fails under
+// a key of its own: the container is transparent, what it holds is body content.
+func blockLostKey(format string, bl lblock, wrap string) string {
+	if bl.Box != 0 {
+		return "block-container-content-lost"
+	}
+	return lostKey(format, wrap)
+}
+
+// boxNote says which container the block sits in.
+func boxNote(bl lblock) string {
+	if bl.Box == 0 {
+		return ""
+	}
+	return fmt.Sprintf("; the block is written inside a block-level container of the body (%s): %s", bl.BoxKind,
+		map[string]string{"sdt": "<w:body>..<w:sdt><w:sdtPr/><w:sdtContent>BLOCKS</w:sdtContent></w:sdt>..", "customXml": "<w:body>..<w:customXml>BLOCKS</w:customXml>..",
+			"customXml-in-sdt": "<w:sdt><w:sdtContent><w:customXml>BLOCKS</w:customXml></w:sdtContent></w:sdt>", "sdt-in-customXml": "<w:customXml><w:sdt><w:sdtContent>BLOCKS</w:sdtContent></w:sdt></w:customXml>"}[bl.BoxKind])
+}
+
 func lostKey(format, wrap string) string {
 	if format == "docx" {
 		switch wrap {
@@ -292,7 +312,7 @@ func evaluate(d *ldoc, out outputs) fails {
 			toks = bl.T.tokens()
 		}
 		j, lost := -1, false
-		whole := itemLost(bl, toks, func(tok string) bool { return find(tok) >= 0 })
+		whole := bl.Box == 0 && itemLost(bl, toks, func(tok string) bool { return find(tok) >= 0 })
 		for _, t := range toks {
 			k := find(t.Tok)
 			if k < 0 {
@@ -300,7 +320,7 @@ func evaluate(d *ldoc, out outputs) fails {
 				if whole {
 					f.add("list-item-lost", "Document(): list item block %d (level %d, text %q) is in no element%s", bi, bl.P.Level, bl.P.wantText(), d.nestNote(bi))
 				} else {
-					f.add(lostKey(F, t.Wrap), "Document(): token %q of block %d (%s) is in no element", t.Tok, bi, t.Wrap)
+					f.add(blockLostKey(F, bl, t.Wrap), "Document(): token %q of block %d (%s) is in no element%s", t.Tok, bi, t.Wrap, boxNote(bl))
 				}
 				continue
 			}
@@ -377,7 +397,18 @@ func evaluate(d *ldoc, out outputs) fails {
 	}
 
 	if len(entries) != wantN && len(f) == 0 {
-		f.add(bodyKey, "Document(): %d elements for %d non-empty blocks", len(entries), wantN)
+		// a table without any text that sits in a block-level container can only be missed by counting
+		mute := 0
+		for _, bl := range d.Blocks {
+			if bl.Box != 0 && bl.T != nil && len(bl.T.tokens()) == 0 {
+				mute++
+			}
+		}
+		if mute > 0 && len(entries) < wantN && len(entries) >= wantN-mute {
+			f.add("block-container-content-lost", "Document(): %d elements for %d non-empty blocks; %d table(s) without text are written inside a block-level container of the body (w:sdt / w:customXml)", len(entries), wantN, mute)
+		} else {
+			f.add(bodyKey, "Document(): %d elements for %d non-empty blocks", len(entries), wantN)
+		}
 	}
 
 	// ---- plain text and Markdown: same order, same paragraph text, structure marks ----
@@ -393,7 +424,7 @@ func evaluate(d *ldoc, out outputs) fails {
 			}
 			lost := false
 			first := true
-			whole := itemLost(bl, toks, func(tok string) bool { return strings.Contains(o.s, tok) })
+			whole := bl.Box == 0 && itemLost(bl, toks, func(tok string) bool { return strings.Contains(o.s, tok) })
 			for _, t := range toks {
 				k := strings.Index(o.s, t.Tok)
 				if k < 0 {
@@ -401,7 +432,7 @@ func evaluate(d *ldoc, out outputs) fails {
 					if whole {
 						f.add("list-item-lost", "%s: list item block %d (level %d, text %q) missing%s", o.name, bi, bl.P.Level, bl.P.wantText(), d.nestNote(bi))
 					} else {
-						f.add(lostKey(F, t.Wrap), "%s: token %q of block %d (%s) missing", o.name, t.Tok, bi, t.Wrap)
+						f.add(blockLostKey(F, bl, t.Wrap), "%s: token %q of block %d (%s) missing%s", o.name, t.Tok, bi, t.Wrap, boxNote(bl))
 					}
 					continue
 				}
